@@ -97,6 +97,7 @@ pub fn text_match(rtext: &TextRef, qtext: &TextRef, tls: &mut Tls, tlsm: &mut Tl
         tm_post(rtext, qtext, ret), // [C09 C06 C01 C08 C02]
         final(tlsm).RMATCHES@.len() == 0 && final(tlsm).QMATCHES@.len() == 0, // [C06 C10]
         qtext.words@.len() == 0 ==> ret.0@.len() == 0 && ret.1@.len() == 0, // [C09 C12]
+        tm_empty(qtext, ret), // [C09 C12]
         // TM-some (C03 C04 C13): a record word that the first query word must match gives the record at least one match
         (exists|j: int| #[trigger] must_pair(rtext, qtext, j)) ==> ret.0@.len() >= 1, // [C03 C04 C13]
         tm_some(rtext, qtext, ret), // [C03 C04 C13]
